@@ -3,7 +3,7 @@
    rationals) in jesse's conventions; harness/c15.py evaluates them in Coq against jesse.indicators (that is the "agree with an
    independent straightforward implementation" clause).  The theorems below are the ranges and orderings, for every input. *)
 From Coq Require Import ZArith QArith Qcanon List Bool Arith.
-From JV Require Import Base.Num Model.CandleView Model.Indicators Proofs.IndicatorBounds.
+From JV Require Import Base.Num Model.CandleView Model.Indicators Proofs.IndicatorBounds Proofs.IndicatorHomog.
 Import ListNotations.
 Local Open Scope Qc_scope.
 
@@ -27,6 +27,38 @@ Theorem C15_sma_homogeneous : forall c p xs, (0 < p)%nat -> sma p (map (Qcmult c
 Proof. exact sma_homogeneous. Qed.
 Theorem C15_ema_homogeneous : forall c p xs, (0 < p)%nat -> ema p (map (Qcmult c) xs) = map (scale_opt c) (ema p xs).
 Proof. exact ema_homogeneous. Qed.
+Theorem C15_wma_homogeneous : forall c p xs, wma p (map (Qcmult c) xs) = map (scale_opt c) (wma p xs).
+Proof. exact wma_homogeneous. Qed.
+Theorem C15_trima_homogeneous : forall c p xs, trima p (map (Qcmult c) xs) = map (scale_opt c) (trima p xs).
+Proof. exact trima_homogeneous. Qed.
+Theorem C15_wilders_homogeneous : forall c p xs, wilders p (map (Qcmult c) xs) = map (Qcmult c) (wilders p xs).
+Proof. exact wilders_homogeneous. Qed.
+Theorem C15_dema_homogeneous : forall c p xs, dema p (map (Qcmult c) xs) = map (Qcmult c) (dema p xs).
+Proof. exact dema_homogeneous. Qed.
+Theorem C15_tema_homogeneous : forall c p xs, tema p (map (Qcmult c) xs) = map (Qcmult c) (tema p xs).
+Proof. exact tema_homogeneous. Qed.
+(* MACD line, signal and histogram are differences of price-homogeneous averages: they scale with price as well *)
+Theorem C15_macd_homogeneous : forall c f s g xs,
+  macd_line f s (map (Qcmult c) xs) = map (Qcmult c) (macd_line f s xs) /\
+  macd_signal f s g (map (Qcmult c) xs) = map (Qcmult c) (macd_signal f s g xs) /\
+  macd_hist f s g (map (Qcmult c) xs) = map (Qcmult c) (macd_hist f s g xs).
+Proof. intros c f s g xs. exact (conj (macd_line_homogeneous c f s xs) (conj (macd_signal_homogeneous c f s g xs) (macd_hist_homogeneous c f s g xs))). Qed.
+(* bounded oscillator: the money flow index of candles with non-negative prices and volumes, every period *)
+Theorem C15_mfi_in_range : forall p ks, Forall nonneg_kc ks -> Forall (in_range 0 (qofnat 100)) (mfi p ks).
+Proof. exact mfi_in_range. Qed.
+(* bands are ordered: Keltner lower <= middle <= upper wherever defined, all three defined at the same indices, any multiplier >= 0 *)
+Theorem C15_keltner_ordered : forall p m ks, (0 < p)%nat -> 0 <= m -> Forall sane ks ->
+  Forall3 ordered3 (keltner_lower p m ks) (keltner_middle p ks) (keltner_upper p m ks).
+Proof. exact keltner_ordered. Qed.
+(* the premises are satisfiable and the conclusions are about defined values: four rising/falling candles, period 2 *)
+Definition ex_kc (c v : nat) : kc := {| k_ts := 0%Z; k_o := qofnat c; k_c := qofnat c; k_h := qofnat (c + 1); k_l := qofnat (c - 1); k_v := qofnat v |}.
+Example C15_mfi_keltner_nonvacuous :
+  let ks := [ex_kc 10 5; ex_kc 12 3; ex_kc 11 4; ex_kc 13 2] in
+  map (option_map this) (mfi 2 ks) = [None; Some 100; Some 45; Some (260 # 7)]%Q /\
+  map (option_map this) (keltner_lower 2 (qofnat 2) ks) = [None; Some 6; Some (13 # 2); Some (85 # 12)]%Q /\
+  map (option_map this) (keltner_middle 2 ks) = [None; Some 11; Some 11; Some (37 # 3)]%Q /\
+  map (option_map this) (keltner_upper 2 (qofnat 2) ks) = [None; Some 16; Some (31 # 2); Some (211 # 12)]%Q.
+Proof. vm_compute. repeat split. Qed.
 
 Print Assumptions C15_rsi_in_range.
 Print Assumptions C15_willr_in_range.
@@ -36,3 +68,11 @@ Print Assumptions C15_atr_nonneg.
 Print Assumptions C15_var_nonneg.
 Print Assumptions C15_sma_homogeneous.
 Print Assumptions C15_ema_homogeneous.
+Print Assumptions C15_wma_homogeneous.
+Print Assumptions C15_trima_homogeneous.
+Print Assumptions C15_wilders_homogeneous.
+Print Assumptions C15_dema_homogeneous.
+Print Assumptions C15_tema_homogeneous.
+Print Assumptions C15_macd_homogeneous.
+Print Assumptions C15_mfi_in_range.
+Print Assumptions C15_keltner_ordered.
